@@ -520,21 +520,38 @@ def _alarm(signum, frame):
 class Runner:
     """One mounted `cherrypy.Application` for a built tree; `get()` sends one request through WSGI."""
 
-    def __init__(self, built, kind='D', sections=None, hooks=None):
+    def __init__(self, built, kind='D', sections=None, hooks=None, front=None):
+        """`front`: None | ['vhost', {host: prefix}, use_x_forwarded_host] | ['xmlrpc'] - a dispatcher wrapper
+        from cherrypy._cpdispatch in front of the recorded default / method dispatcher."""
         cherrypy = cp()
         self.built = built
         self.seen_path = []
+        self.seen_outer = []
         self.kind = kind
         inner = cherrypy.dispatch.MethodDispatcher() if kind == 'M' else cherrypy.dispatch.Dispatcher()
         seen = self.seen_path
+        outer_seen = self.seen_outer
 
         self.requests = []
         reqs = self.requests
 
-        def recording_dispatch(path_info):
+        def inner_recording(path_info):
             seen.append(path_info)
             reqs.append(cherrypy.serving.request)
             return inner(path_info)
+        recording_dispatch = inner_recording
+        if front is not None:
+            if front[0] == 'vhost':
+                wrapped = cherrypy.dispatch.VirtualHost(next_dispatcher=inner_recording,
+                                                        use_x_forwarded_host=bool(front[2]), **dict(front[1]))
+            elif front[0] == 'xmlrpc':
+                wrapped = cherrypy.dispatch.XMLRPCDispatcher(next_dispatcher=inner_recording)
+            else:
+                raise common.HarnessError('unknown dispatcher front %r' % (front,))
+
+            def recording_dispatch(path_info):
+                outer_seen.append(path_info)
+                return wrapped(path_info)
         conf = {}
         for k, v in (sections or {}).items():
             conf[k] = dict(v)
@@ -550,6 +567,7 @@ class Runner:
         self.built.journal[:] = []
         self.built.disp_log[:] = []
         self.seen_path[:] = []
+        self.seen_outer[:] = []
         self.requests[:] = []
         environ = {
             'REQUEST_METHOD': method, 'SCRIPT_NAME': '', 'PATH_INFO': path, 'QUERY_STRING': query,
@@ -604,6 +622,7 @@ class Runner:
             'body': body,
             'headers': list(got.get('headers', [])),
             'disp_log': list(self.built.disp_log),
+            'outer_path': self.seen_outer[0] if self.seen_outer else None,
         }
 
 
